@@ -30,7 +30,9 @@ pub const LIVE_CAP: usize = 1 << 30;
 /// A worker process holding more than this after a parked thread is recycled at once.
 const RECYCLE_LIVE: usize = 96 << 20;
 static LIVE: std::sync::atomic::AtomicUsize = std::sync::atomic::AtomicUsize::new(0);
-pub const CASE_DEADLINE: Duration = Duration::from_secs(2);
+// 2^24-item count-driven lazy iterators (BCF n_sample) are finite but take ~1.8 s of CPU to drain: the
+// deadline must stay clear of them, or a loaded machine turns them into false hangs.
+pub const CASE_DEADLINE: Duration = Duration::from_secs(6);
 
 // slot states (parent <-> child)
 const IDLE: u32 = 0;
@@ -517,7 +519,7 @@ fn cpu_seconds(pid: libc::pid_t) -> Option<f64> {
 }
 
 /// Wall-clock limit of the isolated confirmation run of a suspected hang.
-pub const CONFIRM_DEADLINE: Duration = Duration::from_secs(5);
+pub const CONFIRM_DEADLINE: Duration = Duration::from_secs(15);
 /// A case that is blocked (no CPU use) is given up after this long.
 const BLOCKED_DEADLINE: Duration = Duration::from_secs(60);
 
@@ -742,8 +744,8 @@ pub fn run_stages<S: Stages>(st: &'static S, workers: usize, dir: &std::path::Pa
                                             extra.push(Finding {
                                                 fingerprint: fp,
                                                 decoded,
-                                                expected: "Ok or io::Error within 2 s of CPU time".into(),
-                                                observed: format!("no result after 2 s of CPU time (and, for the first case of this class, {} s in an isolated re-run); the worker was killed", CONFIRM_DEADLINE.as_secs()),
+                                                expected: format!("Ok or io::Error within {} s of CPU time", CASE_DEADLINE.as_secs()),
+                                                observed: format!("no result after {} s of CPU time (and, for the first case of this class, {} s in an isolated re-run); the worker was killed", CASE_DEADLINE.as_secs(), CONFIRM_DEADLINE.as_secs()),
                                                 payload,
                                                 stage: stg,
                                                 case: cur,
